@@ -414,3 +414,42 @@ Proof.
   replace (pc + d - pc mod 4096) with ((target - pc mod 4096) + ((pc + d) / 2 ^ 64) * 2 ^ 64) by lia.
   rewrite Z.mod_add by lia. apply Z.mod_small. exact Hr.
 Qed.
+
+(* ------------------------------------------------------------------ label-delta expressions end to end (embed_label_delta recorded as kExpression):
+   after ANY label program and ANY layout `offs` (in particular C10's flatten), relocating the recorded entry stores pos(label) - pos(base),
+   where pos = offset of the label's section + label offset; it is refused when a label is unbound or the difference does not fit *)
+Theorem delta_expression_end_to_end ops offs rid re l b base asize atoff slots o slots' n :
+  let s := run init ops in
+  nth_error (relocs s) rid = Some re -> rl_type re = Expr l b -> rl_size re = n -> n = 1 \/ n = 2 \/ n = 4 \/ n = 8 ->
+  relocate_entry base asize atoff slots (entry_of_reloc s offs re) = inl (o, slots') ->
+  exists ls lo bs bo,
+    nth_error (labels s) l = Some (Some (ls, lo)) /\ nth_error (labels s) b = Some (Some (bs, bo)) /\
+    let d := to_i64 (wrap 64 ((nth ls offs 0 + lo) - (nth bs offs 0 + bo))) in
+    decode_signed (sfmt n) (o_word o) = d /\ - 2 ^ (8 * n - 1) <= d < 2 ^ (8 * n - 1).
+Proof.
+  intros s Hr Ht Hs Hn Hok.
+  assert (Hk : e_kind (entry_of_reloc s offs re) = RExpr (label_pos (labels s) offs l) (label_pos (labels s) offs b))
+    by (unfold entry_of_reloc; cbn [e_kind]; rewrite Ht; reflexivity).
+  assert (Hf : e_fmt (entry_of_reloc s offs re) = sfmt n) by (unfold entry_of_reloc; cbn [e_fmt]; rewrite Ht, Hs; reflexivity).
+  destruct (label_pos (labels s) offs l) as [pl|] eqn:El.
+  2:{ rewrite (expr_unbound_reported base asize atoff slots _ None (label_pos (labels s) offs b) Hk (or_introl eq_refl)) in Hok. discriminate. }
+  destruct (label_pos (labels s) offs b) as [pb|] eqn:Eb.
+  2:{ rewrite (expr_unbound_reported base asize atoff slots _ (Some pl) None Hk (or_intror eq_refl)) in Hok. discriminate. }
+  unfold label_pos in El, Eb.
+  destruct (nth_error (labels s) l) as [[[ls lo]|]|] eqn:Ell; try discriminate. injection El as <-.
+  destruct (nth_error (labels s) b) as [[[bs bo]|]|] eqn:Ebb; try discriminate. injection Eb as <-.
+  exists ls, lo, bs, bo. split; [reflexivity|]. split; [reflexivity|].
+  exact (reloc_expr_exact base asize atoff slots _ o slots' Hok _ _ n Hk Hf Hn eq_refl).
+Qed.
+
+Theorem delta_expression_unbound_reported ops offs rid re l b base asize atoff slots :
+  let s := run init ops in
+  nth_error (relocs s) rid = Some re -> rl_type re = Expr l b ->
+  (nth_error (labels s) l = Some None \/ nth_error (labels s) b = Some None) ->
+  relocate_entry base asize atoff slots (entry_of_reloc s offs re) = inr RExprUnbound.
+Proof.
+  intros s Hr Ht Hu.
+  apply (expr_unbound_reported base asize atoff slots _ (label_pos (labels s) offs l) (label_pos (labels s) offs b)).
+  - unfold entry_of_reloc; cbn [e_kind]; rewrite Ht; reflexivity.
+  - unfold label_pos. destruct Hu as [H|H]; rewrite H; auto.
+Qed.
